@@ -120,6 +120,9 @@ class Net:
             if fault:
                 w.stats["fault:" + fault] += 1
         if fault == "connect_timeout" and deadline is None:
+            if self.cfg.get("l2"):
+                while True:      # stalls until the real backend's own time-out cancels it
+                    yield None
             fault = "connect_error"
         if fault == "connect_timeout" or (deadline is not None and start + lat > deadline):
             if fault != "connect_timeout":
@@ -287,6 +290,10 @@ class Wire:
         lat = self.net.lat(self.id)
         t = start + lat
         if fault == "read_timeout" and deadline is None:
+            if self.net.cfg.get("l2"):
+                while self.state == "open":
+                    yield None
+                raise WireError("read_error", "closed locally")
             fault = "read_error"
         if fault == "read_timeout":
             while w.now < deadline:
@@ -404,6 +411,11 @@ class Wire:
         lat = self.net.lat(self.id)
         t = start + lat
         if fault == "write_timeout" and deadline is None:
+            if self.net.cfg.get("l2"):
+                self._deliver(n, self._prefix(data))
+                while self.state == "open":
+                    yield None
+                raise WireError("write_error", "closed locally")
             fault = "write_error"
         delivered = False
         try:
@@ -475,6 +487,10 @@ class Wire:
             fault = {"ce_tls": "tls_error", "ct_tls": "tls_timeout", "other_tls": "other"}[oc]
             w.stats["fault:" + fault] += 1
         if fault == "tls_timeout" and deadline is None:
+            if self.net.cfg.get("l2"):
+                while self.state == "open":
+                    yield None
+                raise WireError("tls_error", "closed locally")
             fault = "tls_error"
         if fault == "tls_timeout" or (deadline is not None and t > deadline):
             if fault != "tls_timeout":
